@@ -430,6 +430,14 @@ func (u *clientUpdater) updateService(ctx context.Context, service ServiceDefini
 		return fmt.Errorf("failed to wipe on testSeed change (service=%s, testSeed=%s): %w", service.ID, seed, err)
 	}
 	for _, presentation := range presentations {
+		// A Discovery Service only accepts JWT presentations that have an ID. Ignore anything else the server returns,
+		// since the ID and JWT are dereferenced below (and the entry could never be valid).
+		if presentation.Format() != vc.JWTPresentationProofFormat || presentation.ID == nil || presentation.JWT() == nil {
+			log.Logger().
+				WithField("discoveryService", service.ID).
+				Warn("Ignoring presentation from Discovery Service: not a JWT presentation or missing ID")
+			continue
+		}
 		// Check if the presentation already exists
 		credentialSubjectID, err := credential.PresentationSigner(presentation)
 		if err != nil {
